@@ -34,8 +34,10 @@ def table() -> dict[str, Prop]:
 
     reg(Prop("C11", "typestate over every path (normal and raising) of every Ruler method: rule state is never left mutated "
              "with a possibly valid chain cache; only class Ruler writes the rule list, the cache and Rule fields; the "
-             "compiled chains are exactly the enabled rules filtered by chain, in registration order",
-             [RR.rule_cache, RR.rule_wmw, RR.rule_chain, RR.rule_setsem],
+             "compiled chains are exactly the enabled rules filtered by chain, in registration order; each mutator changes only what "
+             "its contract says (SETSEM); the -1 sentinel of the name lookup is excluded, by a test on the lookup's own result, "
+             "before the result is used as a position (FOUND)",
+             [RR.rule_cache, RR.rule_wmw, RR.rule_chain, RR.rule_setsem, RR.rule_found],
              assumptions=["exceptions considered: explicit raise statements and raising exits of other Ruler methods "
                           "(a user-supplied iterable that raises while being iterated is not modelled)"],
              not_decided="the reported set after a *partially applied failing* call (which names were switched before the raise)"))
@@ -240,6 +242,7 @@ def table() -> dict[str, Prop]:
     props["C03"].rules.append(TT.rule_unisplit)        # lines are split at LF only (no Unicode-aware splitlines on the source)
     props["C17"].rules.append(TT.rule_unisplit)
     props["C11"].rules.append(SW.rule_fanout)          # the same coherence through the facade
+    props["C09"].rules.append(EF.rule_rwrite)          # the alt attribute is recomputed from the image's children, never from raw source
     props["C10"].rules.append(RR.rule_cache)           # a stale compiled chain keeps running a rule that was switched off
     props["C14"].rules.append(RR.rule_cache)           # ... and makes the restored flags of reset_rules ineffective
     props["C14"].rules.append(RR.rule_swallow)         # an exception from user code propagates
